@@ -38,12 +38,23 @@ def item(rng, dtype, atom, k):
     return gens.random_values(rng, dtype, (k,) + tuple(atom))
 
 
+def swapped(x):
+    """What is handed to Darr for a model item: for 3 in 10 items (decided by the item's bytes, no random draw) a copy
+    of the same values with the same numeric type in the OPPOSITE byte order.  The model keeps the item in the model's
+    dtype (seed C02-21: a conversion skipped when dtype.name matches writes unswapped bytes)."""
+    import zlib
+    if x.dtype.itemsize > 1 and zlib.crc32(x.tobytes()) % 10 < 3:
+        return x.astype(x.dtype.newbyteorder('S'))
+    return x
+
+
 def build(op, model, rng, dtype, atom):
     """-> (expected new model list or REJECT, do(D, ra, path) -> handle)"""
     n = len(model)
     if op in ('app0', 'app1', 'app3'):
         x = item(rng, dtype, atom, int(op[3]))
-        return model + [x], lambda D, ra, p: (ra.append(x), ra)[1]
+        xs = swapped(x)
+        return model + [x], lambda D, ra, p: (ra.append(xs), ra)[1]
     if op == 'applist':
         x = gens.safe_source(rng, 'int64', dtype, (2,) + atom)
         lst = x.tolist()
@@ -122,7 +133,8 @@ def build(op, model, rng, dtype, atom):
         return model + items, do
     if op == 'iter2':
         x, y = item(rng, dtype, atom, 2), item(rng, dtype, atom, 0)
-        return model + [x, y], lambda D, ra, p: (ra.iterappend([x, y]), ra)[1]
+        xs = swapped(x)
+        return model + [x, y], lambda D, ra, p: (ra.iterappend([xs, y]), ra)[1]
     if op == 'iter0':
         return list(model), lambda D, ra, p: (ra.iterappend([]), ra)[1]
     if op == 'itergen':
